@@ -155,8 +155,37 @@ def r2(ctx):
     p = ctx.prog
     f = p.func(f"{SH}.BaseShell.execute")
     g = f.cfg
-    writes = [n for n in g.nodes.values() if any(isinstance(c.func, ast.Attribute) and c.func.attr == "write" and "_writer" in unparse(c.func.value) for c in n.calls())]
-    ctx.require(len(writes) == 1, "C25.R2: the write of the command to the shell was not found")
+    # the send and the reads may sit in execute itself or in a private helper method it awaits (inlining bound 2)
+    is_write = lambda c: isinstance(c.func, ast.Attribute) and c.func.attr == "write" and "_writer" in unparse(c.func.value)  # noqa: E731
+    is_read = lambda c: isinstance(c.func, ast.Attribute) and c.func.attr in ("_read_with_output", "_read_without_output")  # noqa: E731
+
+    def helper_of(c, depth=2):
+        """Method of the shell class called as self.<m>(...) whose body (transitively) writes or reads."""
+        if depth == 0 or not (isinstance(c.func, ast.Attribute) and isinstance(c.func.value, ast.Name) and c.func.value.id == "self"):
+            return None
+        if is_read(c):
+            return None
+        for q in p.resolve_call(f, c, fanout=False):
+            h = p.functions.get(q)
+            if h is not None and h.cls is not None and h is not f and h.name.startswith("_"):
+                if any(is_write(x) or is_read(x) or helper_of(x, depth - 1) for x in h.calls()):
+                    return h
+        return None
+
+    def deep(h, pred, depth=2):
+        out = [(h, x) for x in h.calls() if pred(x)]
+        if depth:
+            for x in h.calls():
+                hh = helper_of(x, 1)
+                if hh is not None:
+                    out += deep(hh, pred, depth - 1)
+        return out
+
+    writes = [n for n in g.nodes.values() if any(is_write(c) or ((h := helper_of(c)) is not None and deep(h, is_write)) for c in n.calls())]
+    ctx.ob("R2", "execute sends the command to the shell exactly once", len(writes) == 1, func=f, node=f.node, instance="execute:one-write",
+           message=f"execute writes the command {len(writes)} times (directly or through helpers)")
+    if len(writes) != 1:
+        return
     w = writes[0]
     closes = [n.id for n in g.nodes.values() if any(isinstance(c.func, ast.Attribute) and c.func.attr == "close" and unparse(c.func.value) == "self" for c in n.calls())]
     awaiting = lambda n: n.has_await() or n.kind == "raise_stmt"  # noqa: E731
@@ -178,7 +207,15 @@ def r2(ctx):
                instance=f"execute:close-on-failure:{n.text(60)}",
                message="the shell stays open with the unfinished command's output and end marker in the pipe: the next command reads stale output",
                witness=g.describe(bad) if bad else [])
-    ctx.require(len(after) >= 2, "C25.R2: reads after the write not found")
+    # (reads, node of execute that performs them directly or through a helper, helper or None)
+    read_sites = []
+    for n in g.nodes.values():
+        for c in n.calls():
+            if is_read(c):
+                read_sites.append((f, c, n, None))
+            elif (h := helper_of(c)) is not None:
+                read_sites += [(hf, x, n, c) for hf, x in deep(h, is_read)]
+    ctx.require(len(after) >= 1 and len(read_sites) >= 2, "C25.R2: reads after the write not found")
     # closed shell refuses commands, before the write
     tests = [n for n in g.nodes.values() if n.kind == "test" and unparse(n.ast) in ("self._closed", "self._closed is True")]
     ok = bool(tests) and g.dominates([t.id for t in tests], w.id) and all(
@@ -187,12 +224,26 @@ def r2(ctx):
     # serialised by the lock
     locked = any(isinstance(a, ast.AsyncWith) and any(unparse(i.context_expr) == "self._lock" for i in a.items) for c in w.calls() for a in ancestors(c))
     ctx.ob("R2", "commands on one shell are serialised by its lock (write + read in one critical section)", locked, func=f, node=w.ast, instance="execute:lock")
-    reads = [n for n in g.nodes.values() if any(isinstance(c.func, ast.Attribute) and c.func.attr in ("_read_with_output", "_read_without_output") for c in n.calls())]
-    okr = len(reads) == 2 and all(any(isinstance(a, ast.AsyncWith) for a in ancestors(c)) for n in reads for c in n.calls())
+    okr = len(read_sites) == 2 and all(
+        any(isinstance(a, ast.AsyncWith) and any(unparse(i.context_expr) == "self._lock" for i in a.items) for a in ancestors(site if site is not None else c))
+        and (n.id == w.id or n.id in g.reach([w.id]))
+        for _hf, c, n, site in read_sites)
     ctx.ob("R2", "the output is read inside the same critical section", okr, func=f, node=f.node, instance="execute:read-locked")
     # the marker passed to the readers is the one written
-    mk = [unparse(c.args[0]) for n in reads for c in n.calls() if isinstance(c.func, ast.Attribute) and c.func.attr.startswith("_read_w") and c.args]
+    from ..dataflow import _param_args
+
     mname = kwarg_name(f, "_build_shell_command", "end_marker")
+    mk = []
+    for hf, c, _n, site in read_sites:
+        if not c.args:
+            mk.append(None)
+        elif hf is f:
+            mk.append(unparse(c.args[0]))
+        else:
+            a0 = c.args[0]
+            bound = _param_args(p, hf, a0.id) if isinstance(a0, ast.Name) and a0.id in hf.params else None
+            vals = {unparse(e) for gf, e in (bound or []) if gf is f}
+            mk.append(vals.pop() if len(vals) == 1 and bound and all(gf is f for gf, _e in bound) else None)
     ctx.ob("R2", "readers wait for the marker of this command", len(mk) == 2 and mname is not None and set(mk) == {mname}, func=f, node=f.node, instance="execute:marker-arg")
     # BaseShell.close idempotent and marks closed
     c = p.func(f"{SH}.BaseShell.close")
